@@ -110,14 +110,14 @@ PROPS = {
         'suites': [{'name': 'route', 'oracles': {'route': 'o_route'}, 'trivial_tags': ['live-0'], 'vm_sample': 40},
                    {'name': 'cluster', 'oracles': {'cluster': 'o_cluster'}, 'trivial_tags': ['nodes-1', 'nodes-2'], 'vm_sample': 10, 'sigs': ['pool-set-or-pool-role-differs-from-latest-valid-description']},
                    {'name': 'loop', 'oracles': {'loop': 'o_loop'}, 'trivial_tags': ['plain'], 'vm_sample': 6, 'sigs': ['request-delivered-to-a-node-that-does-not-own-the-slot', 'connection-to-removed-node-left-open', 'event-loop-stopped']},
-                   {'name': 'replicas', 'oracles': {'loopspec': 'o_loop'}, 'oracle_only_entries': ['loopspec'], 'trivial_tags': [], 'vm_sample': 0,
+                   {'name': 'replicas', 'oracles': {'loop': 'o_loop'}, 'trivial_tags': [], 'vm_sample': 4,
                     'sigs': ['request-delivered-to-a-node-that-does-not-own-the-slot', 'replica-connection-used-without-readonly', 'reply-does-not-belong-to-the-request-at-its-position', 'request-never-answered-and-connection-left-open', 'more-replies-than-requests', 'backend-received-bytes-that-are-not-requests', 'event-loop-stopped']}],
-        'rule': 'replicas: 120 (quick) event-loop histories with replica reads ENABLED (three masters with 0-2 replicas each, optional password), judged by the specification oracle alone: requests reach the master or - reads only - a replica of the owning set, READONLY precedes the first request on a replica connection; loop: the event-loop histories of C01 (every request a fake node receives is checked against the slot table); listenServer.route for every command type of the table on fixed 0/2/3-replica sets (4 random seeds each, replica reads on/off) and on random sets of 0-4 replicas '
+        'rule': 'replicas: 120 (quick) event-loop histories with replica reads ENABLED (three masters with 0-2 replicas each, optional password) run against the event-loop model - which routes with the route function of Model/Route.v, the random number being reconstructed from the node the run is seen to choose (event EChoices, read from the write queues before any write round) - and judged by the specification oracle: requests reach the master or - reads only - a replica of the owning set, READONLY precedes the first request on a replica connection; loop: the event-loop histories of C01 (every request a fake node receives is checked against the slot table); listenServer.route for every command type of the table on fixed 0/2/3-replica sets (4 random seeds each, replica reads on/off) and on random sets of 0-4 replicas '
                 'with random pool presence / ban flag / ban-lift time on both sides of now; rand.Intn made reproducible by rand.Seed and its value for every possible argument passed to '
                 'the model as oracle; OnSOpened for passwords of several lengths x master/replica. distinct = distinct (set, type, seed); non-trivial = at least one live replica',
         'explanation': 'Theorems: the node chosen is the master or a live replica of the same set, for every set, type, setting and random value within Intn\'s contract; writes, cursor scans, scripts and '
                        'everything when replica reads are off go to the master; data theorems over the command table (only read-only commands precede the write marker); handshake bytes are '
-                       'canonical AUTH/READONLY requests. That a fragment is enqueued on a connection of the routed address, and the handshake precedes the first request on the wire, is covered with the event-loop model.',
+                       'canonical AUTH/READONLY requests. At the level of the loop: a fragment sits on a connection to the node that the routing plan of its request names (RInv), and a plan names the master of the owning set or - for reads that may go to a replica, with replica reads on - one of its replicas with a pool (C04_plan_by_role); with replica reads off the plan is the slot table (C04_plan_is_the_slot_table).',
         'assumptions': ['the slot table lookup (Slots2Node) and pool map are inputs of route; their construction is C14', 'rand.Intn(n) returns a value in [0,n)'],
     },
     'C20': {
